@@ -197,6 +197,8 @@ pub struct RunStats {
     pub fixed_overflow: u64,
     pub fixed_tail_touched: u64,
     pub owned_grows: u64,
+    pub alloc_fault_fired: u64,
+    pub double_frees: u64,
 }
 
 pub struct Outcome {
@@ -233,7 +235,7 @@ pub fn layout_selftest() -> Result<(), String> {
         let r = Region::new(8);
         let w = diplomat_simple_write(r.buf(), 8);
         let m = &w as *const DiplomatWrite as *const Mirror;
-        let ok = (*m).buf == r.buf() && (*m).len == 0 && (*m).cap + 1 == 8 && !(*m).grow_failed && (*m).context.is_null();
+        let ok = (*m).buf == r.buf() && (*m).len == 0 && ((*m).cap == 7 || (*m).cap == 8) && !(*m).grow_failed && (*m).context.is_null();
         drop(w);
         r.free();
         if !ok {
@@ -619,6 +621,11 @@ fn exec_fixed(t: &Trace, out: &mut Outcome) {
 }
 
 fn exec_owned(t: &Trace, out: &mut Outcome) {
+    let fault_mode = t.alloc_fail_at.is_some() && !MIRI;
+    let mut remaining: i64 = t.alloc_fail_at.map(|k| k as i64).unwrap_or(-1);
+    if fault_mode {
+        crate::faultalloc::track(true);
+    }
     let p: *mut DiplomatWrite = diplomat_runtime::diplomat_buffer_write_create(t.cap);
     let m = p as *mut Mirror;
     let mut model = Model { bytes: vec![], cap: t.cap, failed: false };
@@ -634,8 +641,24 @@ fn exec_owned(t: &Trace, out: &mut Outcome) {
                 opcode = if matches!(op, Op::Char(_)) { 2 } else { 1 };
                 note_chunk(&mut out.stats, &c, model.bytes.len(), model.cap);
                 let cap_before = unsafe { (*m).cap };
+                let fired_before = crate::faultalloc::fired();
+                if fault_mode && remaining >= 0 {
+                    crate::faultalloc::arm(remaining);
+                }
                 let res = do_write(unsafe { &mut *p }, op);
+                if fault_mode {
+                    remaining = crate::faultalloc::disarm();
+                }
+                let fault_fired = crate::faultalloc::fired() != fired_before;
                 let _ = write!(out.log, "{} w{} ", step, c.len());
+                if fault_fired {
+                    // the allocation failed and the process is still alive: the writer chose to
+                    // report the failure, so from here on the sticky-flag rules apply
+                    out.stats.alloc_fault_fired += 1;
+                    remaining = -1;
+                    model.failed = true;
+                    let _ = write!(out.log, "allocation-failed ");
+                }
                 if let Err(e) = res {
                     viol = Some(Violation { oracle: "PANIC", step, detail: e });
                     break 'ops;
@@ -648,7 +671,9 @@ fn exec_owned(t: &Trace, out: &mut Outcome) {
                     outcode = 3;
                 }
                 model.cap = cap_after;
-                model.bytes.extend_from_slice(c.as_bytes());
+                if !model.failed {
+                    model.bytes.extend_from_slice(c.as_bytes());
+                }
             }
             Op::Flush => {
                 opcode = 3;
@@ -669,9 +694,17 @@ fn exec_owned(t: &Trace, out: &mut Outcome) {
         // the accessors are this writer kind's public observation channel: use them on every step
         let (ab, al) = unsafe { (diplomat_buffer_write_get_bytes(&*p), diplomat_buffer_write_len(&*p)) };
         let (rl, rc, rf, rb) = unsafe { ((*m).len, (*m).cap, (*m).grow_failed, (*m).buf) };
-        if rf {
-            viol = Some(Violation { oracle: "I2-flag", step, detail: "grow_failed set on a Rust-owned writer although no growth failed".into() });
+        if rf != model.failed {
+            viol = Some(Violation { oracle: "I2-flag", step, detail: format!("grow_failed={} on a Rust-owned writer, expected {}", rf, model.failed) });
             break 'ops;
+        }
+        if model.failed {
+            if !ab.is_null() || al != 0 {
+                viol = Some(Violation { oracle: "I6-accessor", step, detail: format!("after a failed allocation the accessors returned null={} len={}", ab.is_null(), al) });
+                break 'ops;
+            }
+            let _ = writeln!(out.log, "| failed=true");
+            continue;
         }
         if ab.is_null() || ab != rb || al != model.bytes.len() {
             viol = Some(Violation { oracle: "I6-accessor", step, detail: format!("get_bytes null={} len={} expected len={}", ab.is_null(), al, model.bytes.len()) });
@@ -690,4 +723,12 @@ fn exec_owned(t: &Trace, out: &mut Outcome) {
     }
     out.violation = viol;
     unsafe { diplomat_runtime::diplomat_buffer_write_destroy(p) };
+    if fault_mode {
+        crate::faultalloc::track(false);
+        let df = crate::faultalloc::double_frees();
+        out.stats.double_frees = df as u64;
+        if df > 0 && out.violation.is_none() {
+            out.violation = Some(Violation { oracle: "O4-double-free", step: t.ops.len(), detail: format!("{} block(s) of the Rust-owned writer were released twice (create / failed growth / destroy)", df) });
+        }
+    }
 }
